@@ -79,6 +79,19 @@ class MergeModel(object):
         d = self.cur.get(v)
         if d and d[0] == 'idx':
             return d[1]
+        s = e.strip_all()
+        if s.k == 'CallExpr' and s.callee and s.callee['g'] in ('boost::get', 'boost::tuples::get', 'std::get') and s.args():
+            ta = s.callee.get('targs') or []
+            which = ta[0].get('int') if ta and isinstance(ta[0], dict) else None
+            ea = s.args()[-1] if s.callee['g'] != 'std::get' else s.args()[0]
+            if which == 0:
+                o = deref_of(ea, self.cursors)
+                if o:
+                    return o
+                ev = ex.var_of(ea)
+                if ev in self.cur and self.cur[ev][0] == 'entry':
+                    return self.cur[ev][1]
+            return None
         return deref_of(e, self.cursors)
 
     def classify_locals(self, body):
@@ -107,11 +120,15 @@ class MergeModel(object):
                     continue
                 d = n.c[0].strip_all()
                 if d.k == 'CallExpr' and d.callee and d.callee['g'] in ('boost::get', 'boost::tuples::get', 'std::get') and d.args():
-                    ev = ex.var_of(d.args()[-1]) if d.callee['g'] != 'std::get' else ex.var_of(d.args()[0])
+                    ea = d.args()[-1] if d.callee['g'] != 'std::get' else d.args()[0]
+                    ev = ex.var_of(ea)
+                    ta = d.callee.get('targs') or []
+                    which = ta[0].get('int') if ta and isinstance(ta[0], dict) else None
                     if ev in self.cur and self.cur[ev][0] == 'entry':
-                        ta = d.callee.get('targs') or []
-                        which = ta[0].get('int') if ta and isinstance(ta[0], dict) else None
                         self.cur[n.decl_id] = ('idx' if which == 0 else 'val', self.cur[ev][1])
+                    elif deref_of(ea, self.cursors):
+                        # component read straight through the cursor: get<0>(*it)
+                        self.cur[n.decl_id] = ('idx' if which == 0 else 'val', deref_of(ea, self.cursors))
 
     def value_desc(self, n):
         """symbolic description of a pushed value"""
@@ -121,7 +138,8 @@ class MergeModel(object):
             return self.cur[v]
         o = deref_of(s, self.cursors)
         if o:
-            return ('elem', o)
+            # GF2: the element is the coordinate itself
+            return ('idx', o) if (self.prog.base_type(s.j.get('t')) or {}).get('int') else ('elem', o)
         if s.k == 'CallExpr' and s.callee and s.callee['name'] in ('make_tuple', 'make_pair') and len(s.args()) == 2:
             return ('tuple', self.value_desc(s.args()[0]), self.value_desc(s.args()[1]))
         if s.k in ex.CTOR_KINDS and len(s.c) == 2:
@@ -181,8 +199,11 @@ class MergeModel(object):
         k = s.k
         if k == 'CompoundStmt':
             for c in s.c:
-                self._walk(c, order, acts)
+                if self._walk(c, order, acts):
+                    return True
             return
+        if k == 'ContinueStmt':
+            return True         # the rest of the iteration is skipped
         if k == 'IfStmt':
             v = self._cond(s.cond, order)
             if v is None:
@@ -196,9 +217,9 @@ class MergeModel(object):
                     acts.append(('else', s.cond, sub2))
                 return
             if v:
-                self._walk(s.then, order, acts)
+                return self._walk(s.then, order, acts)
             elif s.els is not None:
-                self._walk(s.els, order, acts)
+                return self._walk(s.els, order, acts)
             return
         if k in ('DeclStmt', 'NullStmt'):
             for n in s.walk():
@@ -445,6 +466,32 @@ def simplify(a):
     return (a[0],)
 
 
+def bulk_tail(prog, fn, m, st):
+    """owner whose remaining range [cursor, end) is appended in one statement: c.insert(c.end(), it, it_e) / std::copy(it, it_e, back_inserter(c))"""
+    e = st.strip_all() if hasattr(st, 'strip_all') else st
+    first = last = None
+    if e.k == 'CXXMemberCallExpr' and e.callee and e.callee['name'] == 'insert' and len(e.args()) == 3:
+        for pos in e.args()[0].walk():      # the iterator -> const_iterator conversion wraps the end() call
+            if pos.k == 'CXXMemberCallExpr' and pos.callee and pos.callee['name'] in ('end', 'cend') and ex.key(pos.object_arg()) == ex.key(e.object_arg()):
+                first, last = e.args()[1], e.args()[2]
+                break
+    if e.k == 'CallExpr' and e.callee and e.callee['g'] == 'std::copy' and len(e.args()) == 3:
+        dst = e.args()[2].strip_all()
+        if dst.k == 'CallExpr' and dst.callee and dst.callee['name'] == 'back_inserter':
+            first, last = e.args()[0], e.args()[1]
+    if first is None:
+        return None
+    fv, lv = ex.var_of(first), ex.var_of(last)
+    if fv in m.cursors and m.cursors[fv][1] == 'begin':
+        owner = m.cursors[fv][0]
+        ls = last.strip_all()
+        end_ok = (lv in m.cursors and m.cursors[lv] == (owner, 'end')) or \
+            (ls.k == 'CXXMemberCallExpr' and ls.callee and ls.callee['name'] in ('end', 'cend') and storage_owner(prog, fn, ls.object_arg()) == owner)
+        if end_ok:
+            return owner
+    return None
+
+
 def check_tails(rep, prog, fn, m, main, rule, what, expect_push):
     after = False
     tails = {}
@@ -453,6 +500,10 @@ def check_tails(rep, prog, fn, m, main, rule, what, expect_push):
             after = True
             continue
         if not after:
+            continue
+        bulk = bulk_tail(prog, fn, m, st)
+        if bulk is not None:
+            tails[bulk] = [('push', ('elem', bulk)), ('adv', bulk)]
             continue
         if st.k == 'WhileStmt' and st.cond is not None:
             vs = [v for v in ex.vars_in(st.cond) if v in m.cursors and m.cursors[v][1] == 'begin']
